@@ -7,7 +7,7 @@ HARNESS_BIN = os.environ.get("LP_HARNESS_BIN", os.path.join(HARNESS_DIR, "target
 DRIVER_BIN = os.path.join(VERIF, "lean", ".lake", "build", "bin", "lp-driver")
 
 
-OP_TIMEOUT = int(os.environ.get("LP_OP_TIMEOUT", "90"))
+OP_TIMEOUT = int(os.environ.get("LP_OP_TIMEOUT", "60"))
 
 
 class LineProc:
